@@ -412,3 +412,29 @@ Proof.
   assert (Hv2 : snd (limiter c2 (cntd c2 (firstn i es)) e) = Ok true) by congruence.
   rewrite (run_stream_nth re c2 fs jm es i e He), Hv2. rewrite Hv in Hd. now rewrite Hd.
 Qed.
+
+(* ---------------------------------------------------------------- every entry of --event_filter counts *)
+Lemma fold_add_filter_acc : forall fl acc x, In x acc -> In x (fold_left add_filter fl acc).
+Proof.
+  induction fl as [|f fl IH]; intros acc x Hx; cbn [fold_left]; [exact Hx|].
+  apply IH. unfold add_filter. destruct (split_on ":"%char f) as [|k [|r [|? ?]]]; try exact Hx.
+  apply in_or_app; left; exact Hx.
+Qed.
+
+Lemma fold_add_filter_in : forall fl acc f k r,
+  In f fl -> split_on ":"%char f = [k; r] -> In (k, r) (fold_left add_filter fl acc).
+Proof.
+  induction fl as [|g fl IH]; intros acc f k r Hin Hs; [destruct Hin|].
+  cbn [fold_left]. destruct Hin as [->|Hin].
+  - apply fold_add_filter_acc. unfold add_filter. rewrite Hs. apply in_or_app; right; left; reflexivity.
+  - eapply IH; eauto.
+Qed.
+
+(* a comma separated entry of the form attribute:regex is one of the filters in force - whether or not another entry
+   names the same attribute *)
+Lemma extract_every_entry : forall s f k r,
+  all_space s = false -> In f (split_on ","%char s) -> split_on ":"%char f = [k; r] ->
+  In (k, r) (extract_filters s).
+Proof.
+  intros s f k r Hs Hin Hf. unfold extract_filters. rewrite Hs. eapply fold_add_filter_in; eauto.
+Qed.
